@@ -114,9 +114,17 @@ func (p *uPacketPacker) PackCoalescedPacket(onlyAck bool, maxSize protocol.ByteC
 		}
 	}
 
+	// [UQUIC] An Initial packet that carries frames is serialized by the spec (appendInitialPacket): the
+	// frame builder decides its size, and the datagram is then filled up to UDPDatagramMinSize with zero
+	// bytes BEHIND the packet. A Handshake or 1-RTT packet appended after those zeros cannot be read by
+	// the peer (it is not at a packet boundary), and it was sized for the room the unpadded Initial packet
+	// left, so it can run past the packet buffer (slice bounds panic in encryptPacket). Such an Initial
+	// packet therefore travels alone; the other packet number spaces follow in the next datagram.
+	specInitial := !onlyAck && len(initialPayload.frames) > 0
+
 	// Add a Handshake packet.
 	var handshakeSealer sealer
-	if (onlyAck && size == 0) || (!onlyAck && size < maxSize-protocol.MinCoalescedPacketSize) {
+	if !specInitial && ((onlyAck && size == 0) || (!onlyAck && size < maxSize-protocol.MinCoalescedPacketSize)) {
 		var err error
 		handshakeSealer, err = p.cryptoSetup.GetHandshakeSealer()
 		if err != nil && err != handshake.ErrKeysDropped && err != handshake.ErrKeysNotYetAvailable {
@@ -143,7 +151,7 @@ func (p *uPacketPacker) PackCoalescedPacket(onlyAck bool, maxSize protocol.ByteC
 	var oneRTTSealer handshake.ShortHeaderSealer
 	var connID protocol.ConnectionID
 	var kp protocol.KeyPhaseBit
-	if (onlyAck && size == 0) || (!onlyAck && size < maxSize-protocol.MinCoalescedPacketSize) {
+	if !specInitial && ((onlyAck && size == 0) || (!onlyAck && size < maxSize-protocol.MinCoalescedPacketSize)) {
 		var err error
 		oneRTTSealer, err = p.cryptoSetup.Get1RTTSealer()
 		if err != nil && err != handshake.ErrKeysDropped && err != handshake.ErrKeysNotYetAvailable {
